@@ -214,10 +214,10 @@ theorem exec_TB (cfg : Cfg) (fuel : Nat) (ctx : Ctx) (sh : Sh) (s : St) :
           obtain ⟨ha, hbd⟩ := hi hc
           have h2 : (s1.ticks : Int) ≤ phi s + (body.safeWeight : Int) := hbd
           refine ⟨fun _ => ?_, ?_⟩
-          · show (s1.ticks : Int) + (if hasEs s1 esMaxEvalCost then 1 else s1.cost) ≤ phi s + ((body.safeWeight + 1 : Nat) : Int) ∧
-              0 < (if hasEs s1 esMaxEvalCost then 1 else s1.cost)
+          · show (s1.ticks : Int) + (if hasEs s1 esMaxEvalCost then (safeTickLeft : Int) else s1.cost) ≤ phi s + ((body.safeWeight + 1 : Nat) : Int) ∧
+              0 < (if hasEs s1 esMaxEvalCost then (safeTickLeft : Int) else s1.cost)
             split
-            · exact ⟨by omega, by omega⟩
+            · unfold safeTickLeft; exact ⟨by omega, by omega⟩
             · rename_i hnb
               have hk : k ≠ .cost := by
                 intro he
